@@ -244,6 +244,9 @@ def run_interp(kind, schemes, cvs, dtype, vals_re, vals_im, conv, pts, mesh, use
         if d == 1 and len(pts) > 1 and use_out is None:
             x = x.ravel()                       # the (n,) form allowed in 1-d
         oshape = (len(pts),)
+    elif conv == 'dense':                       # full (non-sparse) mesh grid arrays, indexing='ij'
+        x = tuple(np.meshgrid(*[np.array(m, dtype=float) for m in mesh], indexing='ij', sparse=False))
+        oshape = tuple(len(m) for m in mesh)
     else:
         x = sparse_meshgrid(*mesh)
         oshape = tuple(len(m) for m in mesh)
@@ -290,7 +293,7 @@ def run_interp(kind, schemes, cvs, dtype, vals_re, vals_im, conv, pts, mesh, use
 def case_term(kind, schemes, cvs, dtype, vre, vim, conv, pts, mesh, out, outarg=None):
     kk = {'nearest': 'KNearest', 'linear': 'KLinear', 'per_axis': 'KPerAxis'}[kind]
     dt = {'float64': 'DFloat', 'float32': 'DFloat', 'complex128': 'DFloat', 'int64': 'DInt', 'str': 'DStr'}[dtype]
-    inp = ('IMesh %s' % C.qss(mesh)) if conv == 'mesh' else ('IPoints %s' % C.qss(pts))
+    inp = ('IMesh %s' % C.qss(mesh)) if conv in ('mesh', 'dense') else ('IPoints %s' % C.qss(pts))
     return ('{| k_kind := %s; k_ss := %s; k_cvs := %s; k_dt := %s; k_cplx := %s; k_vre := %s; k_vim := %s; '
             'k_inp := %s; k_outarg := %s; k_out := %s |}'
             % (kk, C.lst([SCH[s] for s in schemes]), C.qss(cvs), dt, C.b(dtype == 'complex128'),
@@ -332,9 +335,9 @@ def interp_cases(rng, tier):
         else:
             vre = [float(rng.randint(-9, 9)) for _ in range(size)]
         vim = [float(rng.randint(-9, 9)) for _ in range(size)] if dtype == 'complex128' else []
-        conv = rng.choice(['single', 'array', 'array', 'mesh', 'mesh'])
+        conv = rng.choice(['single', 'array', 'array', 'mesh', 'mesh', 'dense'])
         pts, mesh, branches = [], [], []
-        if conv == 'mesh':
+        if conv in ('mesh', 'dense'):
             for c in cvs:
                 npt = rng.choice([1, 2, 2, 3, 4])
                 xs = [coord(c) for _ in range(npt)]
@@ -353,7 +356,7 @@ def interp_cases(rng, tier):
             pts = [p + [0.0] for p in pts]                        # points of the wrong dimension
         outarg = None
         if use_out:
-            osh = [len(m) for m in mesh] if conv == 'mesh' else [len(pts)]
+            osh = [len(m) for m in mesh] if conv in ('mesh', 'dense') else [len(pts)]
             if use_out == 'badshape':
                 osh = osh[:-1] + [osh[-1] + 1]
             outarg = (osh, use_out != 'baddtype')
@@ -1191,11 +1194,16 @@ def probes(rng, tier):
                     shape = _probe_shape(rng, d)
                     cvs = [gen_cvec(rng, n) for n in shape]
                     schemes = [rng.choice(['nearest', 'linear']) for _ in range(d)]
-                    for conv in ('single', 'array', 'mesh'):
+                    for conv in ('single', 'array', 'mesh', 'dense'):
                         layout = 'C' if d == 1 else rng.choice(LAYOUTS)
                         snip = REF + LAYOUT_SRC + ('cvs = %r\nf = relayout(%s, %r)\nitp = make(%r, %r, f, cvs)\n' % (
                             cvs, _rand_values(rng, shape, dtype), layout, kind, schemes))
-                        if conv == 'mesh':
+                        if conv == 'dense':
+                            snip += ('got = np.asarray(itp(tuple(np.meshgrid(*[np.array(c) for c in cvs], indexing="ij", '
+                                     'sparse=False))))\n'
+                                     'observed = got.tolist(); expected = f.tolist()\n'
+                                     'ok = got.shape == f.shape and bool(np.all(got == f))\n')
+                        elif conv == 'mesh':
                             snip += ('got = np.asarray(itp(sparse_meshgrid(*[np.array(c) for c in cvs])))\n'
                                      'observed = got.tolist(); expected = f.tolist()\n'
                                      'ok = got.shape == f.shape and bool(np.all(got == f))\n')
@@ -1245,14 +1253,20 @@ def probes(rng, tier):
                          'o = alloc_out((len(pts),), f.dtype, "strided"); r = itp(np.array(pts).T, out=o)\n'
                          'mo = alloc_out(tuple(len(x) for x in mesh), f.dtype, OUT_LAYOUT)\n'
                          'mr = itp(sparse_meshgrid(*[np.array(x) for x in mesh]), out=mo)\n'
+                         'D = tuple(np.meshgrid(*[np.array(x, dtype=float) for x in mesh], indexing="ij", sparse=False))\n'
+                         'dn = np.asarray(itp(D)); do = alloc_out(tuple(len(x) for x in mesh), f.dtype, OUT_LAYOUT)\n'
+                         'dr = itp(D, out=do)\n'
+                         'dense_ok = (dn.shape == tuple(len(x) for x in mesh) and [complex(v) for v in dn.ravel()] == m\n'
+                         '            and dr is do and [complex(v) for v in do.ravel()] == m)\n'
                          'observed = a\n'
                          'ok = (close(a, expected, 1e-12) and a == b and r is o and [complex(v) for v in o] == a\n'
                          '      and close(m, [ref_interp(schemes, cvs, f, p) for p in mp], 1e-12)\n'
-                         '      and m == call(itp, "array", mp, %d) and mr is mo and [complex(v) for v in mo.ravel()] == m)\n'
+                         '      and m == call(itp, "array", mp, %d) and mr is mo and [complex(v) for v in mo.ravel()] == m\n'
+                         '      and dense_ok)\n'
                          % (d, d, d))
                 _probe(out, 'textbook-%s-d%d' % (kind if kind != 'per_axis' else 'peraxis', d),
                        '%s %s (%s, %d-d, %s memory layout): closest node (right on ties) / multilinear blend / one-cell '
-                       'decay outside, identical for single points, point arrays, mesh grids and out=%s'
+                       'decay outside, identical (values and shape) for single points, point arrays, sparse and dense mesh grids, with and without out=%s'
                        % (kind, eff, dtype, d, layout,
                           '; almost-uniform / rescaled nodes (eps, scale) = %r' % (near,) if near else ''), snip)
 
@@ -1450,6 +1464,37 @@ def probes(rng, tier):
                'interpolators on a %d-d grid accept exactly the documented input shapes and return a scalar / one value '
                'per point' % d, snip)
 
+    # ---- 6f. the result of sampling never shares memory with the mesh / grid / point array, and modifying a
+    #          sampled element in place does not change later samplings on the same space
+    for d in (1, 2, 3):
+        for body in ('x[0]', 'x' if d == 1 else 'x[%d]' % (d - 1), 'x[0] + 0.0'):
+            snip = ('import numpy as np, odl, warnings\nwarnings.simplefilter("ignore")\n'
+                    'from odl.discr.discr_utils import sampling_function, point_collocation\n'
+                    'space = odl.uniform_discr(%r, %r, %r)\nf = lambda x: %s\n'
+                    'grid0 = [c.copy() for c in space.grid.coord_vectors]\n'
+                    'e = space.element(f); before = e.asarray().copy()\n'
+                    'func = sampling_function(f, space.domain, out_dtype=float)\n'
+                    'pts = space.points().T; r_mesh = point_collocation(func, space.meshgrid); r_pts = func(pts)\n'
+                    'shared = [np.shares_memory(e.asarray(), a) for a in list(space.grid.coord_vectors) + list(space.meshgrid)]\n'
+                    'shared += [np.shares_memory(r_mesh, a) for a in space.meshgrid] + [np.shares_memory(r_pts, pts)]\n'
+                    'e *= 0; r_mesh *= 0; r_pts *= 0          # in-place use of the results\n'
+                    'again = space.element(f).asarray()\n'
+                    'observed = (shared, again.tolist()); expected = ([False] * len(shared), before.tolist())\n'
+                    'ok = (not any(shared) and bool(np.all(again == before))\n'
+                    '      and all(bool(np.all(a == b)) for a, b in zip(grid0, space.grid.coord_vectors)))\n'
+                    % ([0.0] * d, [1.0] * d, [4, 3, 2][:d], body))
+            _probe(out, 'sampling-result-aliases-grid' if body != 'x[0] + 0.0' else 'sampling-result-owns-memory-d%d' % d,
+                   'sampling `lambda x: %s` (%d-d): the result shares no memory with mesh / grid / points, and changing '
+                   'it in place leaves the grid and later samplings unchanged' % (body, d), snip)
+    # functools.partial objects as callables
+    snip = ('import numpy as np, odl, functools\n'
+            'def g(x, c):\n    return (x[0] + 10 * x[1]) * c\n'
+            'space = odl.uniform_discr([0, 0], [1, 1], (2, 2))\n'
+            'observed = space.element(functools.partial(g, c=2.0)).asarray()\n'
+            'expected = np.array([g(p, 2.0) for p in space.points()]).reshape(space.shape)\n'
+            'ok = bool(np.all(observed == expected))\n')
+    _probe(out, 'sampling-functools-partial-typeerror', 'space.element(functools.partial(g, c=2.0)) samples the callable', snip)
+
     # ---- 7. vector-valued callables through sampling_function (shaped out_dtype)
     for form, body in (('tuple-mixed', '(x[0] + 0.0 * x[1], 2.0, x[0] * x[1])'),
                        ('tuple-equal-partial', '(x[1], 2.0 * x[1], x[1] + 1.0)')):
@@ -1487,10 +1532,12 @@ def _interp_snippet(desc):
         f = 'np.array(%r, dtype=%r).reshape(%r)' % (desc['values'], desc['dtype'], tuple(len(c) for c in desc['cvs']))
     snip = (REF + LAYOUT_SRC + 'cvs = %r\nf = relayout(%s, %r)\nschemes = %r\nitp = make(%r, schemes, f, cvs)\n'
             % (desc['cvs'], f, desc.get('layout', 'C'), eff, kind))
-    if desc['conv'] == 'mesh':
+    if desc['conv'] in ('mesh', 'dense'):
         snip += ('mesh = %r\npts = list(itertools.product(*mesh))\n'
-                 'observed = [complex(v) for v in np.asarray(itp(sparse_meshgrid(*[np.array(x) for x in mesh]))).ravel()]\n'
-                 % (desc['mesh'],))
+                 'X = %s\n'
+                 'observed = [complex(v) for v in np.asarray(itp(X)).ravel()]\n'
+                 % (desc['mesh'], 'sparse_meshgrid(*[np.array(x) for x in mesh])' if desc['conv'] == 'mesh' else
+                    'tuple(np.meshgrid(*[np.array(x, dtype=float) for x in mesh], indexing="ij", sparse=False))'))
     else:
         snip += 'pts = %r\nobserved = call(itp, %r, pts, %d)\n' % (desc['points'], desc['conv'], d)
     snip += 'expected = [ref_interp(schemes, cvs, f, p) for p in pts]\nok = close(observed, expected, 1e-12)\n'
